@@ -17,9 +17,9 @@ def _wrap(fn):
 CRV, CRC = ["types", "asm", "vm"], ["types", "asm", "vm", "check"]
 HARNESSES = {
     "levels_any_order": dict(props=["C02"], crates=CRC, fn=_wrap(h_graph.scheduling),
-        params=dict(quick=dict(N=3, NE=2), thorough=dict(N=3, NE=3)), witnesses=["reordered", "in-order", "no-parallel-section"],
+        params=dict(quick=dict(N=3, NE=2), thorough=dict(N=3, NE=2)), witnesses=["reordered", "in-order", "no-parallel-section"],
         bound=dict(quick="graphs of 1..3 nodes / <=2 edges as in C01 (h_graph::scheduling); nodes of one level executed in every order (2 or 6 permutations), task = one node evaluation (atomic)",
-                   thorough="<=3 edges"),
+                   thorough="same graphs (3 edges with all permutations did not finish within the 55 min cap: 2 900 s at 14 workers without an answer); the thorough tier deepens the other four harnesses"),
         replay=dict(kind="check_graph", par_runs=10), timeout=dict(quick=1500, thorough=3300), max_paths=dict(quick=400000, thorough=3000000), heavy=True),
     "flat_level_any_order": dict(props=["C02"], crates=CRC, fn=_wrap(h_graph.flat_level),
         params=dict(quick=dict(N=3), thorough=dict(N=4)), witnesses=["reordered", "in-order"],
